@@ -183,6 +183,88 @@ Qed.
 Lemma good_hazard_false : forall A (r : pres A) n, good r n -> r <> PFuel /\ r <> PDeep.
 Proof. intros A r n [H _]. split; intro E; subst; discriminate. Qed.
 
+Section WithPut.
+Variable put : N -> list N -> jv -> list (list N * jv) -> list (list N * jv).
+Local Notation parse_value := (parse_value_g put).
+Local Notation parse_elems := (parse_elems_g put).
+Local Notation parse_members := (parse_members_g put).
+Local Notation parse_text_fuel := (parse_text_fuel_g put).
+Local Notation parse_text := (parse_text_g put).
+
+Lemma pv_step : forall f depth l, parse_value (S f) depth l =
+  match l with
+  | [] => PErr 11
+  | c :: r =>
+    if c =? 34 then
+      match parse_str r [] with POk s rest => POk (JStr s) rest | PErr e => PErr e | PFuel => PFuel | PDeep => PDeep end
+    else if starts_with [116;114;117;101] l then POk (JBool true) (drop 4 l)
+    else if starts_with [102;97;108;115;101] l then POk (JBool false) (drop 5 l)
+    else if starts_with [110;117;108;108] l then POk JNull (drop 4 l)
+    else if (c =? 45) || is_digit c then parse_number l
+    else if c =? 91 then
+      if MAX_DEPTH <=? depth then PErr 12 else
+      match trim r with
+      | [] => PErr 4
+      | c1 :: r1 => if c1 =? 93 then POk (JArr []) r1 else parse_elems f (depth + 1) (trim r) []
+      end
+    else if c =? 123 then
+      if MAX_DEPTH <=? depth then PErr 12 else
+      match trim r with
+      | [] => PErr 6
+      | c1 :: r1 => if c1 =? 125 then POk (JObj []) r1 else parse_members f (depth + 1) (trim r) []
+      end
+    else PErr 11
+  end.
+Proof. reflexivity. Qed.
+Lemma pe_step : forall f d l acc, parse_elems (S f) d l acc =
+  if MAX_DEPTH <? d then PDeep else
+  match trim l with
+  | [] => PErr 4
+  | c1 :: r1 =>
+    match parse_value f d (c1 :: r1) with
+    | PFuel => PFuel | PDeep => PDeep | PErr e => PErr e
+    | POk v rr =>
+      match trim rr with
+      | [] => PErr 4
+      | c2 :: r2 => if c2 =? 93 then POk (JArr (lrev (v :: acc))) r2
+                    else if c2 =? 44 then parse_elems f d r2 (v :: acc)
+                    else PErr 5
+      end
+    end
+  end.
+Proof. reflexivity. Qed.
+Lemma pm_step : forall f d l acc, parse_members (S f) d l acc =
+  if MAX_DEPTH <? d then PDeep else
+  match trim l with
+  | [] => PErr 6
+  | c :: r =>
+    if negb (c =? 34) then PErr 7 else
+    match parse_str r [] with
+    | PFuel => PFuel | PDeep => PDeep | PErr e => PErr e
+    | POk key r1 =>
+      match trim r1 with
+      | [] => PErr 8
+      | c2 :: r2 =>
+        if negb (c2 =? 58) then PErr 9 else
+        match trim r2 with
+        | [] => PErr 6
+        | c3 :: r3 =>
+          match parse_value f d (c3 :: r3) with
+          | PFuel => PFuel | PDeep => PDeep | PErr e => PErr e
+          | POk v r4 =>
+            match trim r4 with
+            | [] => PErr 6
+            | c5 :: r5 => if c5 =? 125 then POk (JObj (put d key v acc)) r5
+                          else if c5 =? 44 then parse_members f d r5 (put d key v acc)
+                          else PErr 10
+            end
+          end
+        end
+      end
+    end
+  end.
+Proof. reflexivity. Qed.
+
 Lemma parse_total_aux : forall fuel,
   (forall d l, d <= MAX_DEPTH -> (2 * length l + 1 <= fuel)%nat -> good (parse_value fuel d l) (length l)) /\
   (forall d l acc, d <= MAX_DEPTH -> (2 * length l + 2 <= fuel)%nat ->
@@ -194,7 +276,7 @@ Proof.
   - repeat split; intros; lia.
   - split; [|split].
     + (* ParseTrimmedInput *)
-      intros d l Hd Hf. cbn [parse_value].
+      intros d l Hd Hf. rewrite pv_step.
       destruct l as [|c r]; [apply good_err|].
       destruct (c =? 34).
       { pose proof (parse_str_good r []) as [Hh Hl].
@@ -222,7 +304,7 @@ Proof.
         eapply good_mono; [apply IHm; [lia|simpl in *; lia]|simpl in *; lia]. }
       apply good_err.
     + (* ParseArray loop *)
-      intros d l acc Hd Hf. cbn [parse_elems].
+      intros d l acc Hd Hf. rewrite pe_step.
       destruct (MAX_DEPTH <? d) eqn:Ed; [apply N.ltb_lt in Ed; lia|].
       pose proof (trim_len l) as Ht.
       destruct (trim l) as [|c1 r1]; [apply good_err|].
@@ -236,7 +318,7 @@ Proof.
       destruct (c2 =? 44); [|apply good_err].
       eapply good_mono; [apply IHe; [assumption|simpl in *; lia]|simpl in *; lia].
     + (* ParseObject loop *)
-      intros d l acc Hd Hf. cbn [parse_members].
+      intros d l acc Hd Hf. rewrite pm_step.
       destruct (MAX_DEPTH <? d) eqn:Ed; [apply N.ltb_lt in Ed; lia|].
       pose proof (trim_len l) as Ht.
       destruct (trim l) as [|c r]; [apply good_err|].
@@ -265,7 +347,7 @@ Qed.
 Lemma parse_text_total : forall text,
   (exists e, parse_text text = PErr e) \/ (exists v, parse_text text = POk v []).
 Proof.
-  intro text. unfold parse_text, parse_text_fuel.
+  intro text. unfold parse_text_g, parse_text_fuel_g.
   pose proof (trim_len (cstr text)) as Ht.
   destruct (trim (cstr text)) as [|c r] eqn:Et; [left; eexists; reflexivity|].
   destruct (parse_total_aux (parse_fuel (cstr text))) as [Hv _].
@@ -281,3 +363,5 @@ Lemma parse_text_no_hazard : forall text, parse_text text <> PFuel /\ parse_text
 Proof.
   intro text. destruct (parse_text_total text) as [[e H]|[v H]]; rewrite H; split; discriminate.
 Qed.
+
+End WithPut.
